@@ -1143,15 +1143,11 @@ func runC03V(r *Run, rng *Rng, replay string) {
 		case spec[i] == x.impl:
 			r.Case(x.line, x.impl)
 		default:
-			// whole-form defects (SDWA selection, CLAMP, 64-bit inline float constants) are keyed by the form alone
 			ft := c03vFeature(c)
 			if ft == "" && containsAny(c.op.name, "_min", "_max") && c03vOnlyZeroSign(x.impl, spec[i]) {
 				ft = ".signedzero" // e.g. an inline constant 0 against a -0 register value
 			}
 			sig := fmt.Sprintf("C03.%s.%s.%s_%d.%s%s", c.op.arch, c.op.name, c.op.format, c.op.op, c03vAspect(x.impl, spec[i], valu), ft)
-			if ft == ".sdwa" || ft == ".clamp" || ft == ".inlinef64" {
-				sig = fmt.Sprintf("C03.%s.%s.%s_%d%s", c.op.arch, c.op.name, c.op.format, c.op.op, ft)
-			}
 			if sigSeen[sig] < 3 { // a few concrete inputs per signature; the rest is counted
 				r.Failf(sig, x.line, "impl=%s spec=%s", x.impl, spec[i])
 			}
